@@ -42,7 +42,7 @@ func GenWindow(r *Rng, allowInstant bool) Window {
 	}
 	if r.P(0.02) {
 		// around the epoch: evaluation times 0 and below are legal and hit sentinel values (T=-1, T=0)
-		base = Pick(r, []int64{-1, 0, 1, -1000, -45_000, -300_001, -29_999})
+		base = Pick(r, []int64{-1, -1, -1, 0, 1, -1000, -45_000, -300_001, -29_999, -1 - 30_000, -1 - 60_000})
 	}
 	if allowInstant && r.P(0.25) {
 		return Window{StartMs: base, EndMs: base}
